@@ -183,7 +183,7 @@ theorem mul_one_field [MulOneClass K] (f q : Fld K) (hf : f.size1 = false) (hq :
   have hint : intersect f.extent f.extent = true := by rw [intersect_iff']; omega
   have hbe : (q.broadcastTo f).extent = f.extent := rfl
   have hm : f.mul q = f.mulArr (q.broadcastTo f) := by
-    unfold Fld.mul
+    rw [Fld.mul_closed]
     simp only [hf, hq, Bool.false_and, Bool.false_eq_true, if_false, if_true]
   rw [hm]
   unfold Fld.mulArr
